@@ -24,7 +24,7 @@ inline void dump_stats() {
   FILE *f = fopen(tmp.c_str(), "w");
   if (!f) return;
   Counters &c = C();
-  fprintf(f, "{\"execs\": %llu, \"skipped_declared_count_over_1e6\": %llu, \"passed_header\": %llu, \"reached_topology\": %llu, \"reached_properties\": %llu, "
+  fprintf(f, "{\"execs\": %llu, \"skipped_declared_count_over_1e5\": %llu, \"passed_header\": %llu, \"reached_topology\": %llu, \"reached_properties\": %llu, "
              "\"returned_success\": %llu, \"returned_failure\": %llu, \"std_exceptions\": %llu, \"structure_aware_inputs\": %llu, \"distinct_nontrivial\": %llu, "
              "\"sample_success\": \"%s\", \"sample_rejected\": \"%s\"}\n",
           (unsigned long long)c.execs, (unsigned long long)c.skipped_huge, (unsigned long long)c.passed_header, (unsigned long long)c.reached_topo,
